@@ -37,6 +37,28 @@ func genC10(run *hx.Run, r *hx.Rng) {
 			done++
 		}
 	}
+	// per-receiver gossip orders in which decided aggregates overtake single commits (n = 4 and 7): some correct operator
+	// aggregates a multi-signer message with later single commits
+	for i := 0; i < 6; i++ {
+		n := []int{4, 7}[i%2]
+		sc := scenarios[len(scenarios)-2]
+		if i >= 2 {
+			sc = scenarios[len(scenarios)-1]
+		}
+		role := consensusRoles[i%len(consensusRoles)]
+		t := BuildTrace(world(n), role, uint64(baseSlot+2*i), sc, hx.NewRng(run.Seed*131+uint64(i)))
+		c := NewCase(run, t.W, false, "c10/"+t.Name)
+		for k := range t.Msgs {
+			c.Honest = 1 // delivery is not in one global order here: honest re-broadcasts of decided aggregates may exceed the N*(f+1) budget (ignored, never rejected)
+			c.ValidateSSV(t.Msgs[k].Msg, t.Time(k), Env{Mode: "n"}, "c10:"+sc.Name)
+			done++
+		}
+		c.Honest = 0
+		run.Tag("c10-run/" + sc.Name)
+		run.Seen(fmt.Sprintf("c10|n%d|role%d|%s", n, role, sc.Name))
+	}
+	dutyHandlerRuns(run, r)
+	excludedPoint(run)
 	for i := 0; done < run.N; i++ {
 		n := 4
 		if i%4 == 3 {
